@@ -22,20 +22,26 @@ EscapeOnce(syms) == FlatSeq([i \in 1..Len(syms) |-> CssHtmlEsc(syms[i])])
 \* consumer verdict on the text `css` the CSS parser receives (the REAL text in VAL, the predicted one in GEN)
 RECURSIVE RawRun(_, _)
 RawRun(q, cs) == IF cs = <<>> THEN q ELSE RawRun(CssRawStep(q, Head(cs)), Tail(cs))
+\* rawattr: the raw text of the attribute value as written into the document (VAL: recorded; GEN: predicted from the
+\* number of escaping levels); an unescaped '"' in it ends the attribute
 ConsumerEvent(k, x, css) ==
     LET c == ConRun(k, CssInit, css)
         r == IF x = "style" THEN RawRun(<<>>, css) ELSE <<>>
     IN  IF c.ev # "" THEN c.ev
         ELSE IF r = <<"END">> THEN "EndStyle" ELSE CssEndEvent(c)
+HasQuote(syms) == \E i \in 1..Len(syms) : syms[i] = CDQ
+ContextEvent(k, x, css, rawattr) == IF x = "attr" /\ HasQuote(rawattr) THEN "EndAttr" ELSE ConsumerEvent(k, x, css)
 
 \* model judgement of a value: accepted?, event on the text CSS would see, signature
 JudgeValue(k, x, syms) ==
     LET ac == Accepting(k, syms)
         css == IF x = "attr" /\ AttrEscapes = 2 THEN EscapeOnce(syms) ELSE syms
-        ev == IF ~ac.found THEN CssEndEvent(ConRun(k, CssInit, Innocuous)) ELSE ConsumerEvent(k, x, css)
+        rawattr == IF x = "attr" /\ AttrEscapes = 0 THEN syms ELSE <<>>
+        ev == IF ~ac.found THEN CssEndEvent(ConRun(k, CssInit, Innocuous)) ELSE ContextEvent(k, x, css, rawattr)
         ev1 == ConsumerEvent(k, "attr", syms)
         b == IF ac.found THEN AccAccept(k, ac.a) ELSE ""
         sig == IF ev = "" THEN "" ELSE IF b = "" THEN "InnocuousValueNotClean"
+               ELSE IF ev = "EndAttr" THEN "StyleAttr.NotEscaped"
                ELSE IF x = "attr" /\ ev1 = "" THEN "StyleAttr.DoubleEscape"
                ELSE Attribute(k, ac.a, b)
     IN  [br |-> b, ev |-> ev, sig |-> sig]
@@ -53,8 +59,28 @@ CFeed(t) == /\ Len(inp) < MaxTok
                lbl' = [op |-> "value", cls |-> ckind, syms |-> syms,
                        style |-> JudgeValue(ckind, "style", syms), attr |-> JudgeValue(ckind, "attr", syms)]
             /\ UNCHANGED vars
-CNext == \E t \in 1..Len(CssTokens[ckind]) : CFeed(t)
+(* url() shapes for background-image: form x leading text x scheme x separator x tail. What a BROWSER makes of the
+   url's text decides the scheme (CssTok!SchStep: leading C0-or-space stripped, TAB/LF/CR removed, letters up to ':'),
+   independently of what net/url makes of it.                                                                    *)
+UrlForms == << [open |-> <<"u","r","l","(">>, close |-> <<")">>], [open |-> <<"u","r","l","(",CDQ>>, close |-> <<CDQ,")">>],
+               [open |-> <<"u","r","l","(","'">>, close |-> <<"'",")">>] >>
+UrlLeads == << <<>>, <<"SP">>, <<"SP","SP">>, <<"TAB">>, <<"CTL">>, <<"LF">>, <<"/">>, <<"UWS">> >>
+UrlSchemes == << <<>>, <<"h","t","t","p">>, <<"h","t","t","p","s">>, <<"m","a","i","l","t","o">>, <<"h","t","S","p">>,
+                 <<"z","a","z","a">>, <<"Z","a","Z","a">>, <<"z","TAB","a">>, <<"h","t","t","p","z">> >>
+UrlSeps == << <<":">>, <<":","/","/">>, <<":","/">> >>
+UrlTails == << <<"a">>, <<"PCT">>, <<"a","PCT","0","0">>, <<"a","SP">>, <<"a","CTL">>, <<"a","(","0",")">>, <<"a","?","z",":">> >>
+CUrlShape(f, l, sc, sp, t) ==
+    /\ ckind = "BackgroundImage" /\ inp = <<>>
+    /\ inp' = <<f, l, sc, sp, t>> /\ ckind' = "UrlShape"
+    /\ LET body == UrlLeads[l] \o UrlSchemes[sc] \o (IF UrlSchemes[sc] = <<>> THEN <<>> ELSE UrlSeps[sp]) \o UrlTails[t]
+           syms == UrlForms[f].open \o body \o UrlForms[f].close
+       IN lbl' = [op |-> "value", cls |-> "BackgroundImage", syms |-> syms,
+                  style |-> JudgeValue("BackgroundImage", "style", syms), attr |-> JudgeValue("BackgroundImage", "attr", syms)]
+    /\ UNCHANGED vars
+CNext == \/ (ckind \in AllClasses /\ \E t \in 1..Len(CssTokens[ckind]) : CFeed(t))
+         \/ \E f \in 1..Len(UrlForms), l \in 1..Len(UrlLeads), sc \in 1..Len(UrlSchemes), sp \in 1..Len(UrlSeps), t \in 1..Len(UrlTails) :
+                CUrlShape(f, l, sc, sp, t)
 CView == <<inp, ckind>>
 CEmit == PrintT(<<"CASE", ToJson(lbl')>>)
-PredictionsKnown == lbl.op = "value" => lbl.style.sig \in KnownSigs \cup {""} /\ lbl.attr.sig \in KnownSigs \cup {""}
+PredictionsKnown == lbl.op = "value" => lbl.style.sig \in KnownSigs \cup {"", "StyleAttr.NotEscaped"} /\ lbl.attr.sig \in KnownSigs \cup {"", "StyleAttr.NotEscaped"}
 =============================================================================
